@@ -6,7 +6,7 @@ CONSTANTS
   ClassHeads <- SecHeads
   NestedKeys <- None
   MemberAlpha <- SecMembersT
-  MaxMembers <- M40
+  MaxMembers <- M30
   MaxClasses = 1
   BaseAlpha <- None
   MaxBases = 1
